@@ -110,8 +110,16 @@ func checkCloseDiscipline(c *core.Ctx, p *progFacts, rule string, f *ssa.Functio
 		}
 		for _, tb := range gs.target.Blocks {
 			for _, ti := range tb.Instrs {
+				// the completion signal: a token sent on D, or D closed (also by a deferred close)
+				var ch ssa.Value
 				if s, ok := ti.(*ssa.Send); ok {
-					ch := s.Chan
+					ch = s.Chan
+				} else if ci, ok := ti.(ssa.CallInstruction); ok {
+					if bi, ok := ci.Common().Value.(*ssa.Builtin); ok && bi.Name() == "close" && len(ci.Common().Args) == 1 {
+						ch = ci.Common().Args[0]
+					}
+				}
+				if ch != nil {
 					// a helper started as `go helper(&wg, done)`: the channel is this go statement's argument
 					if prm, ok := ch.(*ssa.Parameter); ok {
 						for i, fp := range gs.target.Params {
@@ -222,6 +230,23 @@ func checkCloseDiscipline(c *core.Ctx, p *progFacts, rule string, f *ssa.Functio
 			dSenders := map[*ssa.Function]bool{}
 			for _, s := range p.sendsOn(D) {
 				dSenders[s.Parent()] = true
+			}
+			for _, g := range p.funcs { // closing D signals completion just as a token does
+				for _, gb := range g.Blocks {
+					for _, gi := range gb.Instrs {
+						ci, ok := gi.(ssa.CallInstruction)
+						if !ok {
+							continue
+						}
+						if bi, ok := ci.Common().Value.(*ssa.Builtin); ok && bi.Name() == "close" && len(ci.Common().Args) == 1 {
+							for _, src := range p.chanSources(ci.Common().Args[0]) {
+								if src == D {
+									dSenders[g] = true
+								}
+							}
+						}
+					}
+				}
 			}
 			for _, s := range p.sendsOn(C) {
 				for _, gs := range gos {
